@@ -103,4 +103,52 @@ theorem watch_dead_address_answered (t sd : Aid) (w0 : World)
   all_goals (simp [actorAt, isLive, List.getElem?_modify, hget] at *)
   all_goals (first | (simp_all; done) | skip)
 
+/-- a `Resume` decision for a registered victim reopens its mailbox and gives it a runner; nothing
+else about the victim changes (same instance, same queues) and the decision cannot fail -/
+theorem decide_resume (self victim : Aid) (st : Strategy) (w0 : World)
+    (hd : st.decide (actorAt w0 victim).accidents = .resume) (hlive : isLive w0 victim = true) :
+    ⦃fun w => ⌜w = w0⌝⦄ MV.Model.ActorSys.decide self victim st
+    ⦃post⟨fun _ w => ⌜actorAt w victim = { actorAt w0 victim with suspended := false, hasRunner := true }⌝,
+          fun _ _ => ⌜False⌝⟩⦄ := by
+  have hlt : victim < w0.actors.length := by
+    unfold isLive at hlive
+    cases h : w0.actors[victim]? with
+    | none => simp [h] at hlive
+    | some x => exact (List.getElem?_eq_some_iff.mp h).1
+  have hget : w0.actors[victim]? = some (w0.actors[victim]) := List.getElem?_eq_getElem hlt
+  unfold MV.Model.ActorSys.decide sendSys
+  mvcgen [getA_exact, modA_exact]
+  all_goals subst_vars
+  all_goals (try (simp_all [actorAt]; done))
+  all_goals (simp +zetaDelta [actorAt, isLive, hget] at *)
+  all_goals (first | (simp_all; done) | (split <;> simp_all; done) | skip)
+
+/-- an `Escalate` decision hands the accident of `victim` to the parent of the deciding actor (and
+to nobody else's queue: every other actor is unchanged) -/
+theorem decide_escalate (self victim p : Aid) (st : Strategy) (w0 : World)
+    (hd : st.decide (actorAt w0 victim).accidents = .escalate)
+    (hp : (actorAt w0 self).parent = some p) (hlive : isLive w0 p = true) :
+    ⦃fun w => ⌜w = w0⌝⦄ MV.Model.ActorSys.decide self victim st
+    ⦃post⟨fun _ w => ⌜(actorAt w p).sysQ = (actorAt w0 p).sysQ ++ [(.accident victim, some self)] ∧
+                       ∀ b, b ≠ p → actorAt w b = actorAt w0 b⌝,
+          fun _ _ => ⌜False⌝⟩⦄ := by
+  have hlt : p < w0.actors.length := by
+    unfold isLive at hlive
+    cases h : w0.actors[p]? with
+    | none => simp [h] at hlive
+    | some x => exact (List.getElem?_eq_some_iff.mp h).1
+  have hget : w0.actors[p]? = some (w0.actors[p]) := List.getElem?_eq_getElem hlt
+  unfold MV.Model.ActorSys.decide escalate sendSys pushSys
+  mvcgen [getA_exact, modA_exact]
+  all_goals subst_vars
+  all_goals (try (simp_all [actorAt]; done))
+  all_goals (simp +zetaDelta [actorAt, isLive, hget, List.getElem?_modify] at *)
+  all_goals (try simp_all)
+  all_goals (try subst_vars)
+  all_goals (first
+    | done
+    | (intro b hb; have hb' := Ne.symm hb; simp [hb']; done)
+    | (refine ⟨?_, ?_⟩ <;> first | (simp; done) | (intro b hb; have hb' := Ne.symm hb; simp [hb']; done))
+    | (have hg := List.getElem?_eq_getElem hlt; simp_all; done))
+
 end MV.Model.ActorSys
